@@ -63,6 +63,7 @@ def load_findings() -> list[dict]:
 def canon_err(e) -> tuple:
     r = re.sub(r' at 0x[0-9a-f]+', '', (e.reason or '').strip())
     r = re.sub(r"[Tt]ag '(\{[^}]*\}|[A-Za-z_][\w.-]*:)", "tag '", r)     # spelling of the namespace is not compared
+    r = re.sub(r"'(\{[^}]*\}|[A-Za-z_][\w.-]*:)(?=[A-Za-z_][\w.-]*')", "'", r)
     return (type(e).__name__, r)
 
 
